@@ -6,7 +6,7 @@
    resource locations).  `c : cfg` ranges over all namespaces, both folder conventions
    (pack_format < 48 / >= 48), all #override / #link sets and all jmc.txt names. *)
 From Coq Require Import String Ascii List Bool Arith ZArith.
-From JMCV Require Import Base.Dec Model.Names Model.ResLoc Model.Alloc Proofs.ResLoc Proofs.Alloc.
+From JMCV Require Import Base.Dec Model.Names Model.ResLoc Model.Alloc Proofs.ResLoc Proofs.Alloc Proofs.AllocKeep.
 Import ListNotations.
 Open Scope string_scope.
 
@@ -132,6 +132,44 @@ Proof.
   intros c ops b. eexists; eexists.
   split; [vm_compute; reflexivity|]. split; [vm_compute; reflexivity|].
   repeat split; try (vm_compute; reflexivity). vm_compute. tauto.
+Qed.
+
+(* ================================================================== (round 3) defined with / without a file
+   The DataPack knows two tables: `defined_file_pos` (every defined NAME: ODef — functions, @lazy / @if functions, json) and
+   `functions` (the functions a FILE is written for).  `fileless c b st p`: p is defined but build() has no function for it
+   (a @lazy / @if function that could not be expanded in place: called before its definition, `schedule function p()`, p passed
+   by name to a built-in, `p() with ...`; or a json name).  A call of such a name that is not #link-ed makes build() fail —
+   for every configuration, operation sequence and build data — and an accepted build has no such call. *)
+Theorem C07_fileless_call_rejected :
+  forall c ops b st p pre,
+    run c ops = Some st -> In (OCalled p pre) ops ->
+    fileless c b st p = true -> mem_str (first_seg p) (c_links c) = false ->
+    exists e, build c b st = inl e.
+Proof. exact fileless_call_rejected. Qed.
+Print Assumptions C07_fileless_call_rejected.
+
+Theorem C07_accepted_no_fileless_call :
+  forall c b st files, build c b st = inr files -> fileless_called c b st = [].
+Proof. exact accepted_no_fileless_call. Qed.
+Print Assumptions C07_accepted_no_fileless_call.
+
+(* Non-vacuity: `@lazy function greet() {..}  function u() { schedule function greet() 5t; }` — greet is defined, has no
+   file, is recorded as called: the build is refused with "Lazy function used before definition"; with a plain `function greet`
+   (OFSet) the same sequence is accepted and closed. *)
+Example C07_fileless_nonvacuous :
+  let c := mkCfg (mkNames "TEST" "v" "i" "__private__" "__load__" "__tick__" "st") false [] [] [] in
+  let b := mkB [] [] [] [] [] [] [] [] false in
+  let pre := [ONew 0 []; OFSet "__load__" 0; ODef "greet"] in
+  let post := [ODef "u"; OCalled "greet" ""; ONew 1 ["schedule function TEST:greet 5t"]; OFSet "u" 1] in
+  (exists st, run c (pre ++ [OLazy "greet"] ++ post)%list = Some st /\ fileless c b st "greet" = true /\
+              build c b st = inl (BLazyUsed "greet")) /\
+  (exists st files, run c (pre ++ [ONew 2 ["say hi"]; OFSet "greet" 2] ++ post)%list = Some st /\ fileless c b st "greet" = false /\
+                    build c b st = inr files /\ closedb c files = true).
+Proof.
+  intros c b pre post. split.
+  - eexists. split; [vm_compute; reflexivity|]. split; vm_compute; reflexivity.
+  - eexists. eexists. split; [vm_compute; reflexivity|]. split; [vm_compute; reflexivity|].
+    split; [vm_compute; reflexivity|]. vm_compute; reflexivity.
 Qed.
 
 (* ================================================================== (iv) Core-language closure
